@@ -600,6 +600,33 @@ theorem range_getD (l : List Nat) (hl : ∀ x ∈ l, x < 256) : (List.range l.le
   simp only [List.getElem_map, List.getElem_range, List.getElem?_eq_getElem hi, Option.getD_some]
   exact Nat.mod_eq_of_lt (hl _ (List.getElem_mem hi))
 
+/-- the exported `seq ` consists of bytes when the channel-track and subroutine lists are in the
+fragment and their streams are shorter than 64 KiB (header and macro streams: always) -/
+theorem C09_seq_bytes {c : Conv} {tl : List (Nat × List MEv)} {vol : Option String} {b : Built} (h : assemble c tl vol = .ok b)
+    (hfr : ∀ l ∈ tl.map (·.2) ++ c.subList, MdsRead.Frag l) (hlen : ∀ s ∈ b.trackStreams ++ b.subStreams, s.length < 65536) :
+    ∀ x ∈ b.seq, x < 256 := by
+  obtain ⟨ts, ss, ms, hts, hss, hms, _, _, _, hbt, hbs, _, hseq⟩ := assemble_ok h
+  have hstream : ∀ (es : List (List MEv)) (pos : Nat) (bs : List (List Nat)),
+      encodeStreams (convertTrackChk c.subList.length c.macroList.length) (4 + 4 * tl.length) pos es = .ok bs →
+      (∀ l ∈ es, MdsRead.Frag l) → (∀ s ∈ bs, s.length < 65536) → ∀ x ∈ bs.flatten, x < 256 := by
+    intro es pos bs he hf hl x hx
+    obtain ⟨s, hs, hxs⟩ := List.mem_flatten.mp hx
+    obtain ⟨l, hlm, hc⟩ := MdsRead.encodeStreams_mem _ _ _ _ _ he s hs
+    obtain ⟨body, t, rfl, hb, ht, _⟩ := hf l hlm
+    refine MdsRead.convertTrack_bytes _ _ _ ?_ (convertTrackChk_fits hc).2 (hl s hs) x hxs
+    intro ev hev
+    rcases List.mem_append.mp hev with hev | hev
+    · exact (hb ev hev).1
+    · simp only [List.mem_singleton] at hev; subst hev; exact ht.1
+  rw [hseq]
+  refine MdsRead.app_bytes (MdsRead.app_bytes (MdsRead.app_bytes (MdsRead.headerOf_bytes _ _ _ _ _ _ _) ?_) ?_) ?_
+  · exact hstream _ _ _ hts (fun l hl => hfr l (List.mem_append_left _ hl)) (fun s hs => hlen s (List.mem_append_left _ (hbt ▸ hs)))
+  · exact hstream _ _ _ hss (fun l hl => hfr l (List.mem_append_right _ hl)) (fun s hs => hlen s (List.mem_append_right _ (hbs ▸ hs)))
+  · intro x hx
+    obtain ⟨s, hs, hxs⟩ := List.mem_flatten.mp hx
+    obtain ⟨l, _, hc⟩ := MdsRead.encodeStreams_mem _ _ _ _ _ hms s hs
+    exact MdsRead.convertMacroTrack_bytes hc x hxs
+
 /-- **`full` (partial)**: the property THROUGH the reader-side definitions on the serialised file.
 For an export `construct … = b`, `get_mds … = f`: `parseFile f` (RIFF walk + shape) gives the
 container with `seq = b.seq` and the `dblk` entries of `used_data_map`, ids pairwise distinct and
@@ -612,15 +639,15 @@ stream of the subroutine / macro track registered under the key the writer used,
 content of the one `dblk` entry holding the data-bank item of the `used_data_map` key.
 
 Residual hypotheses (everything else is `C09_full_statement`): `hfr`/`hlen` — every channel and
-subroutine event list is in the fragment `Frag`, streams shorter than 64 KiB; `hbyte` — the model's
-`seq` holds bytes; `hsmall` — the file is below 4 GiB; `hs` — the track map is sorted (a
+subroutine event list is in the fragment `Frag`, streams shorter than 64 KiB (then the model's `seq`
+holds bytes: `C09_seq_bytes`); `hsmall` — the file is below 4 GiB; `hs` — the track map is sorted (a
 `std::map`); `hn` — at least one channel track; macro streams resolve when non-empty.  Not covered:
 `checkFile`'s comparison with the SONG's events (`namedOf`, `matchAll`: which id each operand
 must name is proved per hook call by `C09_event_names`), drum-note operands, `contiguous`. -/
 theorem C09_full_partial {song : Song} {d : DataInfo} (hpc : PlatformClean d) {vol : Option String} {b : Built}
     (h : construct song d vol = .ok b) {bank : List (List Nat)} {group pcm f : Bytes} (hg : getMds b bank group pcm = .ok f)
     (hs : (song.tracks.map (·.1)).Pairwise (· < ·)) (hn : 0 < b.trackList.length)
-    (hsmall : ∀ ts, (mdsTree (toU8 b.seq) group pcm ts).small) (hbyte : ∀ x ∈ b.seq, x < 256)
+    (hsmall : ∀ ts, (mdsTree (toU8 b.seq) group pcm ts).small)
     (hfr : ∀ l ∈ b.trackList.map (·.2) ++ b.conv.subList, MdsRead.Frag l)
     (hlen : ∀ s ∈ b.trackStreams ++ b.subStreams, s.length < 65536) :
     ∃ mf hd, MdsResolve.parseFile f = .ok mf ∧ mf.seq = b.seq ∧ mf.group = MdsResolve.nat group ∧
@@ -639,6 +666,7 @@ theorem C09_full_partial {song : Song} {d : DataInfo} (hpc : PlatformClean d) {v
       (∀ l ∈ b.trackList.map (·.2) ++ b.conv.subList, ∀ (drum : Bool),
         ∀ o ∈ MdsRead.opsOf b.conv.subList.length b.conv.macroList.length l drum, Resolves song d b bank mf hd o) := by
   obtain ⟨hinv, hids, hasm⟩ := construct_inv hpc h
+  have hbyte : ∀ x ∈ b.seq, x < 256 := C09_seq_bytes hasm hfr hlen
   obtain ⟨hsz, hseqlen, r0, r2, r3, htr, hsub, hmac, hdat⟩ := MdsRead.layout hasm
   obtain ⟨ts, hts, _, _, _⟩ := getMds_serialize hg
   obtain ⟨_, hidmap⟩ := MdsRead.mapM_parse _ _ _ _ _ hts
@@ -815,11 +843,11 @@ theorem C09_full_partial {song : Song} {d : DataInfo} (hpc : PlatformClean d) {v
 /-- the decidable residual hypotheses of `C09_full_partial` (`Spec/MdsFrag.fullPartialHyps`, evaluated on every
 accepted generated song by the C09 judge, `Driver/MdsFile`) are those of the theorem -/
 theorem fullPartialHyps_sound {song : Song} {b : Built} (h : fullPartialHyps song b = true) :
-    (song.tracks.map (·.1)).Pairwise (· < ·) ∧ 0 < b.trackList.length ∧ (∀ x ∈ b.seq, x < 256) ∧
+    (song.tracks.map (·.1)).Pairwise (· < ·) ∧ 0 < b.trackList.length ∧
     (∀ l ∈ b.trackList.map (·.2) ++ b.conv.subList, MdsRead.Frag l) ∧ (∀ s ∈ b.trackStreams ++ b.subStreams, s.length < 65536) := by
   simp only [fullPartialHyps, Bool.and_eq_true, decide_eq_true_eq, List.all_eq_true] at h
-  obtain ⟨⟨⟨⟨h1, h2⟩, h3⟩, h4⟩, h5⟩ := h
-  exact ⟨h1, h2, h3, fun l hl => MdsRead.fragB_sound (h4 l hl), h5⟩
+  obtain ⟨⟨⟨h1, h2⟩, h4⟩, h5⟩ := h
+  exact ⟨h1, h2, fun l hl => MdsRead.fragB_sound (h4 l hl), h5⟩
 
 /-- the decidable residual hypotheses hold of a concrete assembled export with a subroutine, a
 data item and a channel track (the `construct` hypothesis itself cannot be evaluated by the kernel —
